@@ -85,6 +85,16 @@ type ByronMainBlockHeader struct {
 	}
 }
 
+// MarshalCBOR returns the original bytes of a decoded block header so that
+// re-serialising an unmodified object reproduces what was on the wire (and
+// still hashes to its identifier), also for non-canonical encodings.
+func (h *ByronMainBlockHeader) MarshalCBOR() ([]byte, error) {
+	if h.Cbor() != nil {
+		return h.Cbor(), nil
+	}
+	return cbor.EncodeGeneric(h)
+}
+
 func (h *ByronMainBlockHeader) UnmarshalCBOR(cborData []byte) error {
 	type tByronMainBlockHeader ByronMainBlockHeader
 	var tmp tByronMainBlockHeader
@@ -1056,6 +1066,16 @@ type ByronEpochBoundaryBlockHeader struct {
 	ExtraData any
 }
 
+// MarshalCBOR returns the original bytes of a decoded block header so that
+// re-serialising an unmodified object reproduces what was on the wire (and
+// still hashes to its identifier), also for non-canonical encodings.
+func (h *ByronEpochBoundaryBlockHeader) MarshalCBOR() ([]byte, error) {
+	if h.Cbor() != nil {
+		return h.Cbor(), nil
+	}
+	return cbor.EncodeGeneric(h)
+}
+
 func (h *ByronEpochBoundaryBlockHeader) UnmarshalCBOR(cborData []byte) error {
 	type tByronEpochBoundaryBlockHeader ByronEpochBoundaryBlockHeader
 	var tmp tByronEpochBoundaryBlockHeader
@@ -1130,6 +1150,16 @@ type ByronMainBlock struct {
 	Extra       []any
 }
 
+// MarshalCBOR returns the original bytes of a decoded block so that
+// re-serialising an unmodified object reproduces what was on the wire (and
+// still hashes to its identifier), also for non-canonical encodings.
+func (h *ByronMainBlock) MarshalCBOR() ([]byte, error) {
+	if h.Cbor() != nil {
+		return h.Cbor(), nil
+	}
+	return cbor.EncodeGeneric(h)
+}
+
 func (b *ByronMainBlock) UnmarshalCBOR(cborData []byte) error {
 	type tByronMainBlock ByronMainBlock
 	var tmp tByronMainBlock
@@ -1199,6 +1229,16 @@ type ByronEpochBoundaryBlock struct {
 	BlockHeader *ByronEpochBoundaryBlockHeader
 	Body        []common.Blake2b224
 	Extra       []any
+}
+
+// MarshalCBOR returns the original bytes of a decoded block so that
+// re-serialising an unmodified object reproduces what was on the wire (and
+// still hashes to its identifier), also for non-canonical encodings.
+func (h *ByronEpochBoundaryBlock) MarshalCBOR() ([]byte, error) {
+	if h.Cbor() != nil {
+		return h.Cbor(), nil
+	}
+	return cbor.EncodeGeneric(h)
 }
 
 func (b *ByronEpochBoundaryBlock) UnmarshalCBOR(cborData []byte) error {
